@@ -49,7 +49,7 @@ func main() {
 	r.Rule("hist: case = seeded (registry capability profile over 12 knobs, Repository option set {ManifestMediaTypes default/explicit/custom, TagListPageSize, ReferrerListPageSize, SkipReferrersGC, HandleWarning, preset referrers capability}, " +
 		"content pool from the DAG generator plus one custom-media-type manifest, history of 40–200 operations out of 17 kinds); after every operation: result vs registry-model state, registry-model state vs the oracle's own account, every request vs the specification validator; " +
 		"distinct = (profile, option set, set of operation-kind bigrams); non-trivial = ≥ 4 operation kinds and ≥ 1 manifest with a subject stored. " +
-		"corrupt: case = (operation out of 13, one corrupted field out of 19 of one response, profile); distinct = (operation, corruption, corrupted response's method, digest-header/unknown-length/range bits); non-trivial = the corruption reached a response and the pair is judged")
+		"corrupt: case = (operation out of 16, one corrupted field out of 20 of one response, profile); distinct = (operation, corruption, corrupted response's method, digest-header/unknown-length/range bits); non-trivial = the corruption reached a response and the pair is judged")
 	r.Assume("the registry is regmodel, a model of the OCI distribution specification v1.1 served over plain HTTP on loopback (TLS and real servers are not exercised)")
 	r.Assume("n= on the referrers endpoint (sent only with ReferrerListPageSize > 0) and n= added to a pagination URL handed out in a Link header are tolerated by the request validator")
 	r.Assume("unjudged by design of the statement: Resolve(tag) by HEAD without Docker-Content-Digest (and FetchReference(tag) when GET carries no length either) may fail; a corrupted field the client has nothing to compare with (content type by reference, digest header or length of a HEAD by tag) is not a contradiction")
@@ -62,7 +62,7 @@ func main() {
 		r.Counter("corruptions_tried"), applied, r.Counter("corruptions_detected"), r.Counter("corruptions_harmless"), r.Counter("corruptions_unjudged")))
 	code := r.Write(r.N(500, 20000))
 	if code == 0 {
-		for _, c := range []string{"requests_validated", "seek_steps", "read_steps", "corruptions_detected", "nonempty_referrer_listings", "mounts_honoured", "mounts_fallback", "contradictions_refused"} {
+		for _, c := range []string{"requests_validated", "seek_steps", "seek_faults_injected", "read_steps", "corruptions_detected", "nonempty_referrer_listings", "mounts_honoured", "mounts_fallback", "contradictions_refused"} {
 			if r.Counter(c) == 0 {
 				fmt.Printf("BROKEN: property=C13 counter %s is zero: the run observed too little\n", c)
 				code = 2
